@@ -15,7 +15,7 @@
    host and port with the extents of the text and PortNo = the value of exactly those digits, or
    rejects the URI when that exceeds 65535 (status: C08).  Every numeric position of the property is
    thereby proved at parser level for its basic textual shape. *)
-From Sipsp Require Import Harness IP4 Numbers FLineSpec UIntSpec QSpec NameAddrSpec NameAddrParam HdrSpec CSeqSpec URIPortSpec.
+From Sipsp Require Import Harness IP4 Numbers FLineSpec UIntSpec QSpec NameAddrSpec NameAddrParam HdrSpec CSeqSpec URIPortSpec NameAddrGen.
 Theorem C10_uint_header_value_is_its_digits : forall p sp ds d x,
   Forall (fun b => is_sp b = true) sp -> all_digits ds -> ds <> [] -> is_sp d = false ->
   let i := nnat (length p) in
@@ -116,5 +116,19 @@ Proof. exact spec_uri_expires. Qed.
 (* q=0.75 is 750 thousandths; q=1.5 is flagged and leaves q alone *)
 Example C10_q_example : fb_q (set_q [48;46;55;53] pfrom0) = 750 /\ fb_q (set_q [49;46;53] pfrom0) = 0 /\ fb_perr (set_q [49;46;53] pfrom0) = EValBad.
 Proof. vm_compute. repeat split; reflexivity. Qed.
+(* through the general parameter part of a name-addr value (C09_bracketed_uri_and_parameters and the other general theorems): if the last
+   parameter is expires = digits, the value reported is the decimal value saturated at 2^32-1; if no parameter is named expires, the
+   value is the head's (0) *)
+Theorem C10_expires_in_the_general_parameter_part : forall h p L t i b d g2 g3 V,
+  t_val t = Some (g2, g3, V) -> eqb_nocase (t_name t) str_tag = false -> eqb_nocase (t_name t) str_expires = true -> all_digits V ->
+  fb_expires (finW h d (t_apply p (i + nnat (length (its_bytes L))) t (its_state p i L b))) = N.min (dec V) MaxU32.
+Proof.
+  intros h p L t i b d g2 g3 V Hv H1 H2 Hd. rewrite (gen_expires_last h p L t i b d g2 g3 V Hv); [apply contact_expires_saturates; exact Hd|].
+  unfold t_is_exp. rewrite Hv, H1, H2. reflexivity.
+Qed.
+Theorem C10_no_expires_parameter_no_value : forall h p L t i b d, Forall (fun t => t_is_exp t = false) (L ++ [t]) ->
+  fb_expires (finW h d (t_apply p (i + nnat (length (its_bytes L))) t (its_state p i L b))) = fb_expires b.
+Proof. exact gen_expires_none. Qed.
+Print Assumptions C10_expires_in_the_general_parameter_part.
 Print Assumptions C10_q_with_decimals.
 Print Assumptions C10_q_in_a_value.
